@@ -162,7 +162,7 @@ struct Cmp {
 const char* ID_DPAR = "C09-dparametric-nan";
 const char* WHY_DPAR = "exact mode: DParametric returns 0/0 = NaN for latitudes above 45 deg a few ulps apart -> NaN S12 / lon2";
 const char* ID_DE = "C09-de-prolate-equator";
-const char* WHY_DE = "exact mode, f < 0: DE evaluated at x = y = 90 deg for two latitudes within 1e-13 deg of the equator -> s12 wrong by orders of magnitude";
+const char* WHY_DE = "exact mode, f < 0: DE works near x = y = 90 deg for latitudes near the equator: relative error eps/|lat| in s12, lon2 (garbage below 1e-13 deg)";
 void set_regimes(Cmp& C, const EllRec& e, double lat1, double lat2, bool direct = false) {
   C.regime(dpar_regime(e, lat1, lat2, direct), ID_DPAR, WHY_DPAR);
   C.regime(de_regime(e, lat1, lat2, direct), ID_DE, WHY_DE);
@@ -221,7 +221,7 @@ InvTol inv_tol(const ref::rhumb::Inv& R, const EllRec& e, double a, double lat1 
   InvTol t; double g = ecc_factor(e) + de_factor(e, lat1, lat2) / 4;
   // latitudes whose tangents differ by a subnormal number: the divided differences work with that difference
   double dt = std::fabs(lat2 - lat1) * (M_PI / 180);
-  if (dt > 0 && dt < 1e-290 && std::max(std::fabs(lat1), std::fabs(lat2)) < 1) g += DBL_TRUE_MIN / dt / EPS;
+  if (dt > 0 && dt < 1e-290 && std::max(std::fabs(lat1), std::fabs(lat2)) < 1) g += std::min(1e30, DBL_TRUE_MIN / dt / EPS);
   L ps = 1 + fabsl(R.psi1) + fabsl(R.psi2);
   L mh = R.hyp > 0 ? fabsl(R.m12) / R.hyp : 0;             // metres per unit of h along the meridional direction
   // absolute floor: one ulp of a latitude of 90 degrees is 1.6 nm on the ground; the exact-mode divided difference of the
@@ -320,7 +320,7 @@ DirTol dir_tol(const ref::rhumb::Dir& D, const EllRec& e, double lon1, bool unro
   DirTol t; double g = ecc_factor(e) + de_factor(e, lat1, (double)D.lat2) / 4;
   // a start latitude so small that differences of tangents are subnormal (divided differences lose their relative accuracy)
   // (the difference of two tangents ~ eps tan(phi) is then below DBL_MIN: relative error TRUE_MIN / (eps tan(phi)))
-  if (lat1 != 0 && std::fabs(lat1) < 1e-290) g += DBL_TRUE_MIN / (std::fabs(lat1) * (M_PI / 180) * EPS) / EPS;
+  if (lat1 != 0 && std::fabs(lat1) < 1e-290) g += std::min(1e30, DBL_TRUE_MIN / std::max(DBL_TRUE_MIN, std::fabs(lat1) * (M_PI / 180) * EPS) / EPS);
   t.mu2 = 8 * g * EPS * (fabsl(D.mu1) + fabsl(D.mu12) + 1e-300L);
   t.lat2 = t.mu2 * D.dphi_dmu2 + 16 * g * EPS * fabsl(D.lat2) + 1e-320L;
   L lon2abs = unroll ? fabsl((L)lon1 + D.lon12) : (L)180;
